@@ -28,12 +28,17 @@ char* _ZN11QDataStreamrsERi(char *self, char *out) { struct vdev *v = DEV(self);
 /* copy n bytes src block [from..) -> destination; the destination is written through the typed member when it is a model block */
 static void vpl_ds_read_blk(QAD *dst, QAD *src, uint32_t from, uint32_t n) { for (uint32_t i = 0; i + from < XHINT(src) && i < QB_CAP; i++) { if (i >= n) break; BD(dst)[i] = XBYTES(src)[from + i]; } }
 static void vpl_ds_read_raw(uint8_t *dst, QAD *src, uint32_t from, uint32_t n) { for (uint32_t i = 0; i + from < XHINT(src) && i < QB_CAP; i++) { if (i >= n) break; dst[i] = XBYTES(src)[from + i]; } }
-/* memory-safety contract of readRawData(dst, len): dst has room for len bytes.  Checked as a PROPERTY (not a model limit). */
+/* memory-safety contract of readRawData(dst, len): dst has room for len bytes.  Checked as a PROPERTY (not a model limit).
+   dst at the first byte of a byte array: len <= its LOGICAL size; dst inside a byte array: up to its logical end (VP_RAW_W_OK, bytes_models.c);
+   any other destination: its C object (__CPROVER_w_ok). */
 uint32_t _ZN11QDataStream11readRawDataEPci(char *self, char *dst, uint32_t len) { struct vdev *v = DEV(self); if ((int32_t)len < 0) return (uint32_t)-1;
   uint32_t av = ds_avail(v), n = len < av ? len : av;
   if (VP_IS_QB(dst)) { QAD *db = (QAD*)(dst - QB_OFF);
     VP_ASSERT(len <= db->f1, "C14 safety: QDataStream::readRawData destination (byte array) has room for the requested length");
     if (n > 0) { ASSERT(v->pos + n <= QB_CAP, "stream read outside the block storage"); vpl_ds_read_blk(db, v->rbuf, v->pos, n); } }
+  else if (len != 0 && VP_RAW_INBLK(dst)) {
+    VP_SAFE(VP_RAW_W_OK(dst, len), "QDataStream::readRawData destination (inside a byte array) has room for the requested length");
+    if (n > 0) { ASSERT(v->pos + n <= QB_CAP, "stream read outside the block storage"); vpl_ds_read_raw((uint8_t*)dst, v->rbuf, v->pos, n); } }
   else {
 #ifdef __CPROVER__
     VP_ASSERT(len == 0 || __CPROVER_w_ok(dst, len), "C14 safety: QDataStream::readRawData destination has room for the requested length");
@@ -50,7 +55,9 @@ char* _ZN11QDataStreamlsEa(char *self, uint8_t x) { struct vdev *v = DEV(self); 
 char* _ZN11QDataStreamlsEs(char *self, uint16_t x) { struct vdev *v = DEV(self); uint32_t p = v->pos; QAD *d = ds_wblk(v, 2); BD(d)[p] = (uint8_t)(x >> 8); BD(d)[p + 1] = (uint8_t)x; return self; }
 char* _ZN11QDataStreamlsEi(char *self, uint32_t x) { struct vdev *v = DEV(self); uint32_t p = v->pos; QAD *d = ds_wblk(v, 4); BD(d)[p] = (uint8_t)(x >> 24); BD(d)[p + 1] = (uint8_t)(x >> 16); BD(d)[p + 2] = (uint8_t)(x >> 8); BD(d)[p + 3] = (uint8_t)x; return self; }
 static void vpl_ds_write(QAD *d, uint32_t p, const uint8_t *src, uint32_t n) { for (uint32_t i = 0; i < PHINT(src, n) && i < QB_CAP; i++) { if (i >= n) break; BD(d)[p + i] = src[i]; } }
+/* memory-safety contract of writeRawData(src, len): len bytes are readable at src (logical size of the byte array src points into) */
 uint32_t _ZN11QDataStream12writeRawDataEPKci(char *self, char *src, uint32_t len) { if ((int32_t)len < 0) return (uint32_t)-1; if (len == 0) return 0;
+  VP_SAFE(VP_RAW_R_OK(src, len), "QDataStream::writeRawData source holds the requested number of bytes");
   struct vdev *v = DEV(self); uint32_t p = v->pos; QAD *d = ds_wblk(v, len); vpl_ds_write(d, p, (uint8_t*)src, len); return len; }
 #endif
 
